@@ -66,11 +66,13 @@ mod imp {
         let maxpairs: usize = args[4].parse().unwrap();
         let seed = env_u64("VERIF_SEED", 0) as usize;
         install_hook();
+        start_watchdog(env_u64("VERIF_WATCHDOG", 90));
         let (mut nproofs, mut npanics, mut nbuild_panics, mut nstates) = (0usize, 0usize, 0usize, 0usize);
         for (si, st) in table.states.iter().enumerate() {
             if st.key.is_empty() { continue; }
             nstates += 1;
             for variant in 0..2usize {
+                tick(&format!("{} state {:?} variant {}", uni.name, st.key, variant));
                 let kind = NAMINGS[(si + variant + seed) % NAMINGS.len()];
                 let nm = Naming::new(kind, uni.n);
                 let ex = |ti: usize| to_recexpr::<T>(&uni.terms[ti - 1], &nm).unwrap();
